@@ -21,7 +21,7 @@ func init() {
 		ID:              "C14",
 		Level:           "exploration",
 		RaceIsViolation: true,
-		Cases:           func(tier string) int { return baseCases(tier) + ctxCases(tier) },
+		Cases:           func(tier string) int { return baseCases(tier) + ctxCases(tier) + r4Cases(tier) },
 		Rule: "cases 0..639 (quick) / 0..39999 (thorough): case i runs class i%4: (0) middleware-concurrent, (1) publisher-decorator-concurrent: a multiset of 4..96 messages over 1..5 keys (payload sizes around the 64-byte read limit: equal prefixes with different tails, keys from SHA-256/Adler-32 with limits 1..MaxInt64 or a metadata field), " +
 			"presented by 1..32 goroutines released by a barrier with yield injection at the repository's hook point, retention window 1 h (or the default repository, Repository left nil: one minute); exactly one message per key may reach the handler / inner publisher, all others must come back as (nil,nil) resp. acked and filtered; " +
 			"(2) window: windows 5..50 ms, IsDuplicate polled with conservative monotonic stamps: a key accepted at [a0,a1] must be reported duplicate by any call ending before a0+window, and must be accepted again before the harness's own ticker of period window/2 fired 12 times past a1+window (else inconclusive if the control ticker itself was late); " +
@@ -32,11 +32,19 @@ func init() {
 			"an arrival may come back with an error only if its context may be done or Timeout < 1 min (live-arrival-rejected otherwise); a message may be dropped as a success only if a message of its key reached the handler/publisher (dropped-without-winner: judged at the drop when sequential, at the end otherwise); " +
 			"after all arrivals one Background-context message per key is presented through a Deduplicator{Timeout: 1min} on the same repository: it must get through iff nothing of its key did, so a key remembered for a rejected arrival is seen as a lost redelivery; at most one arrival per key gets through (duplicate-passed). " +
 			"35% of the ctx-decorator cases also publish a batch {fresh message, message whose KeyFactory fails} and retry the fresh one (clause batch-abort-key-remembered: the fresh one must get through). " +
-			"Non-trivial: at least one key had >=2 concurrent presentations (0,1) / at least one duplicate answer and one re-acceptance were observed (2) / >=20 pairs (3) / at least one arrival whose context may be done (4,5). Distinct = (class, shape, observed winner pattern).",
+			"The last 320 (quick) / 6000 (thorough) cases run, by index j%5: (6, j%5==0) hot-expiry: ONE repository with a window of 1..8 ms lives through 100..800 expiries per key (as many as fit into ~1.2 s): a single hot key (2..3 keys in a third of the cases) is presented without pause (spinning or with sub-window timer waits) by 1..32 goroutines through the repository, the middleware or the decorator, every presentation bracketed by monotonic stamps [s,e]; " +
+			"any two acceptances of a key must span at least the window (max(e)-min(s) >= window: accepted-twice-within-window); after the presenters returned, every key is presented sequentially, once per 4 ticks of a control ticker of period window/2 (left alone for 2 windows in between), until it is accepted again: " +
+			"a presentation started later than lastAcceptanceEnd + window*1.5 + 1 s that is still dropped after 40 control ticks received past that instant is a violation (stuck-after-expiry: the key is not accepted again after it expired); " +
+			"(7, j%5 in 1..3) fault-decorator, (8, j%5==4) fault-middleware: a program of 4..14 calls (decorator: batches of 1..4) over 2..6 keys mixing fresh keys, duplicates of earlier ones and the same key twice in a batch, sequential (60%) or by 2..8 goroutines; the wrapped publisher / handler returns an error or panics when its batch holds a message marked error/panic (15..50% / 0..20% of the messages) and for ~12% of the invocation numbers whatever the batch holds (also empty batches); then every key is presented again twice without faults. " +
+			"A key is confirmed by an invocation that held a message of it and returned nil: no other message of the key may reach the wrapped publisher / handler except in a rejected invocation that ended before the confirming one started (confirmed-key-passed-again), nor two messages of a key in one invocation (batch-internal-duplicate-passed); " +
+			"the fate of the keys of a rejected invocation is counted, not judged; drops need a winner and an ack / (nil,nil); an error or panic comes back only from a call whose invocation failed (error-returned). " +
+			"Non-trivial: at least one key had >=2 concurrent presentations (0,1) / at least one duplicate answer and one re-acceptance were observed (2) / >=20 pairs (3) / at least one arrival whose context may be done (4,5) / every key was accepted >= 4 times and duplicates were answered (6) / at least one rejected invocation and one confirmed key (7,8). Distinct = (class, shape, observed winner pattern).",
 		Assumptions: []string{
 			"keys are compared through an independent reference (payload prefix / metadata value); hash collisions between different prefixes are not observable and assumed absent",
 			"time is used only as a lower bound (window) and with a control ticker for the bounded 'accepted again' clause",
 			"ctx classes: an ExpiringKeyRepository may honour its context, so an error for an arrival whose derived context may be done is tolerated and counted (ctx_rejected_with_tolerated_error); such an arrival then counts neither as the one that got through nor as a dropped duplicate",
+			"hot-expiry: 'accepted again after it expired' is judged only sequentially, from a presentation that STARTED more than window*1.5 (documented maximum retention of NewMapExpiringKeyRepository) + 1 s after the end of the last accepting call, and only after 40 ticks of a harness ticker with the clean-up period were received past that instant; time enters as a lower bound only, a slow machine delays the verdict",
+			"fault classes: what a deduplicator does with the keys of a batch the wrapped publisher rejected (error or panic) is not specified by the statement and not judged; retention 1 h or the default minute, second acceptances judged only if the case took less than a quarter of it",
 			"ctx classes: the final presentations use a second Deduplicator (Timeout 1 min) sharing Repository and KeyFactory with the one under test; a second acceptance is judged only if the whole case took less than a quarter of the retention window (else inconclusive)",
 		},
 		Run: run,
@@ -49,7 +57,20 @@ func baseCases(tier string) int { return vlib.TierN(tier, 640, 40000) }
 // ctxCases: message-context classes appended behind them.
 func ctxCases(tier string) int { return vlib.TierN(tier, 320, 12000) }
 
+// r4Cases: long-running expiry and wrapped-publisher fault classes appended behind them.
+func r4Cases(tier string) int { return vlib.TierN(tier, 320, 6000) }
+
 func run(e *vlib.Env) vlib.Result {
+	if b := baseCases(e.Tier) + ctxCases(e.Tier); e.Idx >= b {
+		switch j := (e.Idx - b) % 5; j {
+		case 0:
+			return hotExpiry(e)
+		case 4:
+			return faultClass(e, false)
+		default:
+			return faultClass(e, true)
+		}
+	}
 	if b := baseCases(e.Tier); e.Idx >= b {
 		return ctxClass(e, (e.Idx-b)%2 == 1)
 	}
